@@ -8,6 +8,9 @@
    for the current table says which way the property goes today. *)
 From Ink.Json Require Import StdLoad StdLoadProofs StdLoadDepth StdLoadNames.
 From Ink.Gen Require Import LoadGen.
+From Ink.Gen Require Import SaveGen.
+From Ink.Engine Require Import Api Tie Save.
+From Ink.Shell Require Import ResetProofs HostFrame HostFrameLoad.
 
 (* (1) totality: with every story-reachable site repaired, no document panics *)
 Theorem load_story_total :
@@ -119,3 +122,24 @@ Print Assumptions a_story_loads.
    (L_hashmap_value), jobject_to_int_hashmap (L_int_hashmap_val), jobject_to_choice.
    Until then the save half is explored on the implementation only (tools/props/c15.py).
    --------------------------------------------------------------------------- *)
+
+(* ---------------- "after a failed load the story can still be reset and plays like a fresh one" ---------------- *)
+(* load_state writes the StoryState only, so whatever it did — succeeded, or stopped half way with
+   BadJson — the bookkeeping between host calls is intact and reset is the constructor's
+   initialisation on a blank world with the host's bindings in place (reset ignores the old state) *)
+Theorem reset_after_any_load_is_fresh :
+  forall (I : iface) (sp : ssite -> bool) (ssw : save_switches) (seed : Z) (w : world) (j : json),
+    between_calls w ->
+    reset_state I sw_now seed (snd (load_state sp ssw w j)) =
+    reset_globals I sw_now (rebind (snd (load_state sp ssw w j))
+                                   (world_init (w_story (snd (load_state sp ssw w j))) seed
+                                               (w_fuel (snd (load_state sp ssw w j))))).
+Proof. exact HostFrameLoad.reset_after_any_load_is_fresh. Qed.
+Check reset_after_any_load_is_fresh :
+  forall (I : iface) (sp : ssite -> bool) (ssw : save_switches) (seed : Z) (w : world) (j : json),
+    between_calls w ->
+    reset_state I sw_now seed (snd (load_state sp ssw w j)) =
+    reset_globals I sw_now (rebind (snd (load_state sp ssw w j))
+                                   (world_init (w_story (snd (load_state sp ssw w j))) seed
+                                               (w_fuel (snd (load_state sp ssw w j))))).
+Print Assumptions reset_after_any_load_is_fresh.
